@@ -89,6 +89,8 @@ def _impl_one(op):
         return canon.impl_print(mode, tname, cc, enc, data)
     if kind == "FRONT":
         return canon.impl_front(op[1], op[2])
+    if kind == "SEQ":
+        return canon.impl_seq(op[1])
     if kind == "TRIM":
         return canon.impl_trim(op[1], op[2])
     if kind == "VIA":
